@@ -33,6 +33,9 @@ type c19P struct {
 	// BTFirstMs > 0: the block time option is applied twice, first with this value (a default), then with the real
 	// one (the override); no explicit recency threshold. Must behave exactly like the real one alone.
 	BTFirstMs int `json:"bt_first_ms,omitempty"`
+	// ViaParams: the options are applied to a Parameters value (DefaultParameters() first) that is handed over with
+	// WithParams, instead of being passed to NewSyncer one by one
+	ViaParams bool `json:"via_params,omitempty"`
 }
 
 const (
@@ -81,6 +84,19 @@ func TestC19(t *testing.T) {
 				mon.Emit(r, "script", c19P{Steps: st}, "script")
 				st2 := []c19Step{{Op: "start"}, {Op: "ranges", Mode: "fail"}, {Op: "sleep", Ms: 5000}, {Op: "gossip"}, {Op: "mode", Mode: m}, {Op: "sleep", Ms: ms}, hs, {Op: "head"}}
 				mon.Emit(r, "script", c19P{Steps: st2}, "script")
+			}
+		}
+	}
+	// the same parameters handed over as one Parameters value (WithParams)
+	for _, empty := range []bool{false, true} {
+		for _, ms := range []int{500, 3100, 61000, 120000} {
+			for _, m := range []string{"fresh", "expired", "error"} {
+				st := []c19Step{{Op: "mode", Mode: m}, {Op: "sleep", Ms: ms}, {Op: "start"}, {Op: "head"}, {Op: "mode", Mode: "fresh"}, {Op: "sleep", Ms: 3500}, {Op: "head"}}
+				mon.Emit(r, "script", c19P{Empty: empty, Steps: st, ViaParams: true}, "script")
+				if !empty {
+					st2 := []c19Step{{Op: "start"}, {Op: "mode", Mode: m}, {Op: "sleep", Ms: ms}, {Op: "head"}, {Op: "heads", N: 3}}
+					mon.Emit(r, "script", c19P{Steps: st2, ViaParams: true}, "script")
+				}
 			}
 		}
 	}
@@ -231,6 +247,13 @@ func c19Run(c *mon.Case, p c19P) {
 		sopts := []hsync.Option{hsync.WithBlockTime(c19BT), hsync.WithTrustingPeriod(c19TP), hsync.WithSyncFromHeight(1)}
 		if p.BTFirstMs > 0 {
 			sopts = append([]hsync.Option{hsync.WithBlockTime(time.Duration(p.BTFirstMs) * time.Millisecond)}, sopts...)
+		}
+		if p.ViaParams {
+			params := hsync.DefaultParameters()
+			for _, o := range sopts {
+				o(&params)
+			}
+			sopts = []hsync.Option{hsync.WithParams(params)}
 		}
 		if err := w.newSyncer(sopts...); err != nil {
 			c.T.Fatalf("syncer: %v", err)
